@@ -116,6 +116,37 @@ class FObj:
         object.__setattr__(self, k, v)
 
 
+def dv(v):
+    """values: ints travel as they are, other types in a tagged string encoding"""
+    if isinstance(v, str) and v[:1] == "\x02":
+        tag, _, x = v[1:].partition(":")
+        if tag == "f":
+            return float(x)
+        if tag == "s":
+            return x
+        if tag == "none":
+            return None
+        if tag == "b":
+            return bool(int(x))
+        if tag == "big":
+            return int(x)
+        if tag == "c":
+            return complex(x)
+        if tag == "tup":
+            return tuple(json.loads(x))
+        if tag == "list":
+            return json.loads(x)
+        import numpy as np
+        if tag == "arr":
+            return np.array(json.loads(x))
+        if tag == "np":
+            return np.int64(int(x))
+        if tag == "npf":
+            return np.float64(float(x))
+        raise ValueError("bad value encoding " + repr(v))
+    return v
+
+
 def fsum(c):
     if isinstance(c, dict):
         vals = list(c.values())
@@ -135,6 +166,8 @@ def build(spec):
         return spec
     if spec == "FunSum":
         return fsum
+    if isinstance(spec, str):
+        return dv(spec)
     kind = spec["kind"]
     if kind == "dict":
         d = FDict()
@@ -156,10 +189,10 @@ def build(spec):
 
 
 def flatten(obj, pre, out):
-    if isinstance(obj, dict):
+    if isinstance(obj, dict):          # FDict and AttrDict containers (dict VALUES are not generated)
         for k, v in obj.items():
             flatten(v, pre + [ek(k)], out)
-    elif isinstance(obj, list):
+    elif isinstance(obj, FList):
         for i, v in enumerate(obj):
             flatten(v, pre + [i], out)
     elif isinstance(obj, FObj):
@@ -201,7 +234,7 @@ def tid_path(tid):
 def mkexpr(roots, e):
     k = e[0]
     if k == "const":
-        return e[1]
+        return dv(e[1])
     if k == "ref":
         return mkref(roots, e[1])
     if k == "bin":
@@ -266,7 +299,8 @@ def snapshot(m, roots_data, knobs):
     for tid, t in m.tasks.items():
         kind = "expr" if isinstance(t, ExprTask) else "knob" if isinstance(t, LinearKnob) else "fun"
         tasks.append([tid_path(tid), kind, [ref_path(x) for x in t.dependencies], [ref_path(x) for x in t.targets]])
-    prev = [[tid_path(t.taskid), t.prev_value] for t in m.tasks.values() if isinstance(t, LinearKnob)]
+    prev = [[tid_path(t.taskid), t.prev_value if isinstance(t.prev_value, int) else repr(t.prev_value)]
+            for t in m.tasks.values() if isinstance(t, LinearKnob)]
     return {"store": st, "indices": idx, "tasks": tasks, "prev": prev, "frozen": bool(m._tree_frozen),
             "dump": [[a, b] for a, b in m.dump()]}
 
@@ -312,7 +346,7 @@ def consistency(m):
                 have = tid._get_value()
             except Exception:
                 continue
-            if want != have or type(want) is not type(have):
+            if repr(want) != repr(have) or type(want) is not type(have):
                 bad.append([ref_path(tid), have if isinstance(have, int) else repr(have), want if isinstance(want, int) else repr(want)])
     return bad
 
@@ -433,30 +467,32 @@ def gen_fun_check(m, roots, roots_data, arg_paths, values, obs):
         g = m.gen_fun("g", **kwargs)
         obs["start_order"] = STARTS[-1] if STARTS else []
         res["listed"] = LISTED[-1] if LISTED else []
-        g(*values)
+        g(*[dv(v) for v in values])
         TRACE.extend(res["listed"])          # the function ran every listed task
     except Exception as e:
         res["err"] = exc_name(e)
-        return res
     # twin: assign through the manager
     tainted = False
     for p, v in zip(arg_paths, values):
         r2 = mkref(roots2, p)
         sd = r2._get_dependencies()
         try:
-            m2.set_value(r2, v)
+            m2.set_value(r2, dv(v))
         except Exception as e:
             res["twin_err"] = exc_name(e)
             break
         if order_cycle(triggered(m2, sd)):
             tainted = True
     res["cycle"] = tainted
-    del TRACE[:]
-    TRACE.extend(res["listed"])          # drop the twin manager's runs from the trace of this operation
+    del TRACE[:]                         # drop the twin manager's runs from the trace of this operation
+    if res["err"] is None:
+        TRACE.extend(res["listed"])
     sa, sb = [], []
     for label in roots_data:
         flatten(roots_data[label], [label], sa)
         flatten(data2[label], [label], sb)
+    if res["err"] is not None:
+        return res          # both routes are compared only when the generated function ran to the end
     res["equal"] = (sa == sb)
     if sa != sb:
         res["diff"] = [[x, y] for x, y in zip(sa, sb) if x != y][:4]
@@ -520,13 +556,13 @@ def pickle_check(m, roots_data, followups):
         before2 = store(m2)
         e1 = e2 = None
         try:
-            m.set_value(mkref(roots1, p), v)
+            m.set_value(mkref(roots1, p), dv(v))
         except Exception as e:
             e1 = exc_name(e)
         if store(m2) != before2:
             problems.append("an assignment to the original changed the copy"); break
         try:
-            m2.set_value(mkref(roots2, p), v)
+            m2.set_value(mkref(roots2, p), dv(v))
         except Exception as e:
             e2 = exc_name(e)
         if e1 != e2:
@@ -572,11 +608,11 @@ def fresh_check(m, roots, roots_data, leaves, followups):
         ea = eb = None
         try:
             sd = ra._get_dependencies()
-            m.set_value(ra, val)
+            m.set_value(ra, dv(val))
         except Exception as e:
             ea = exc_name(e)
         try:
-            m2.set_value(rb, val)
+            m2.set_value(rb, dv(val))
         except Exception as e:
             eb = exc_name(e)
         if order_cycle(triggered(m, sd)):
@@ -616,7 +652,7 @@ def run_case(case, opts):
                 sd_refs = ref._get_dependencies()
                 obs["sd_order"] = [ref_path(x) for x in sd_refs]
                 if op[2][0] == "plain":
-                    m.set_value(ref, op[2][1])
+                    m.set_value(ref, dv(op[2][1]))
                 else:
                     m.set_value(ref, mkexpr(roots, op[2][1]))
             elif kind == "inplace":
@@ -626,7 +662,7 @@ def run_case(case, opts):
                 owner = mkref(roots, op[1][:-1])
                 k, key = op[1][-1]
                 key = dk(key) if k == "i" else key
-                sym, val = op[2], op[3]
+                sym, val = op[2], dv(op[3])
                 if k == "i":
                     if sym == "+":
                         owner[key] += val
@@ -712,7 +748,9 @@ def run_case(case, opts):
         orc = {"canon": []}
         if heavy:
             orc["canon"] = canon_ok(m) if snap else []
-            if kind in ("set", "inplace") and sd_refs is not None and (obs["err"] is None or obs["err"] == "Fault"):
+            if kind in ("set", "inplace") and sd_refs is not None:
+                # also for operations that raised (any class): the tasks that ran must be among the triggered ones,
+                # and an ordering cycle among the triggered tasks is flagged
                 orc["trace"] = trace_verdict(m, sd_refs, obs["trace"], obs["err"])
             if obs["err"] is None:
                 orc["inconsistent"] = consistency(m)
